@@ -28,8 +28,7 @@ named here (last full run, over the first 200: all 196 changes outside the docum
 `patch.rebased.diff` because later fix commits touched the same lines). {len(other)} changes ({', '.join(other)}) are not visible to the check of the property they were
 filed under and are decided by another check, named in their row (thread counts and interleavings by C11, a reverted fix by C03).
 {len(nd)} are not detected: C04-f, C05-d, C05-n, C06-m, C15-d, C16-h and C16-n because the changed behaviour lies outside what the property
-states (an oracle for it would alarm on code where the property holds, or no user-reachable execution shows it); C19-n
-is a miss of the machinery found in the last round and left open for lack of time (its meta.json says what would catch it). What the misses taught, as generic workload
+states (an oracle for it would alarm on code where the property holds, or no user-reachable execution shows it). What the misses taught, as generic workload
 rules now applied across the checks: give commands files of SEVERAL trees with DIFFERENT tip sets and sizes; offer inputs as
 file / gzip / stdin / Nexus / PhyloXML and let commands write to -o files; combine options; pass tree objects WITH A PAST
 (indexed, then renamed or re-rooted) to library functions; keep one generator/handle across edits; undo later rather than at
